@@ -23,6 +23,7 @@ import datetime as dt
 import json
 import sys
 import time
+import zoneinfo
 
 import pytz
 
@@ -72,6 +73,10 @@ def dec(v):
         return d
     if "date" in v:
         return dt.date(*v["date"])
+    if "zdt" in v:
+        # an aware datetime in a zoneinfo zone (variable offset; `fold` tells the two readings of a repeated hour apart)
+        y, m, d, hh, mm, ss, us, zone, fold = v["zdt"]
+        return dt.datetime(y, m, d, hh, mm, ss, us, tzinfo=zoneinfo.ZoneInfo(zone), fold=fold)
     if "sdt" in v:
         # a STIXdatetime as found on another object: a datetime cleaned earlier at the given precision / constraint
         local, off, prec, cons = v["sdt"]
@@ -133,7 +138,7 @@ def show_val(v):
         return show_j(v["j"])
     if "dt" in v:
         local, off = v["dt"]
-        return "@N%d" % local if off is None else "@A%d/%d" % (local - off, off)
+        return "@N%d" % local if off is None else "@A%d" % (local - off)
     y, m, d = v["date"]
     return "@D%d-%d-%d" % (y, m, d)
 
